@@ -605,6 +605,8 @@ Proof.
   - intros H W. injection H as <-. exact W.
   - intros H W. apply set_ext_id_same in H. subst s'. exact W.
   - intros H W. apply credit_spec in H. exact (keeps_bals _ _ H W).
+  - intros H W. apply delegate_spec in H. exact (keeps_bals _ _ H W).
+  - intros H W. apply set_time_spec in H. exact (keeps_bals _ _ H W).
   - apply close_market_wf.
 Qed.
 
